@@ -229,7 +229,7 @@ class SyncService(object):
         else:
             m = self.dev.host_maxdata
             parts = [b[i:i + m] for i in range(0, len(b), m)]
-        assert b''.join(parts) == b and all(parts)
+        assert b''.join(parts) == b            # (parts may be empty: WRITEs without payload)
         for p in parts:
             st.data.append(('WRTE', p, st.nwr))
 
